@@ -1,25 +1,32 @@
 --------------------------- MODULE ReassemblyTrace ---------------------------
-(* Trace validation for Reassembly.  The recorded execution has one writer *)
-(* goroutine (deplex's role) and one reader goroutine running in parallel, *)
-(* so events are call/return pairs and the state change of each call is a  *)
-(* silent step that TLC places between them.  Several traces are           *)
-(* concatenated, separated by "Reset" events.                              *)
+(* Trace validation for Reassembly.  The recorded execution has up to four *)
+(* writer goroutines (one deplex goroutine per connection) and one reader  *)
+(* goroutine running in parallel, so events are call/return pairs and the  *)
+(* state change of each call is a silent step that TLC places between      *)
+(* them.  Several traces are concatenated, separated by "Reset" events.    *)
 EXTENDS Reassembly, TLC, Json, IOUtils
 
 Trace == ndJsonDeserialize(IOEnv.VERIF_TRACE)
 
+Writers == 0..3
+
 VARIABLES l,        \* next trace line to consume
-          wpend,    \* index passed to a Write call in progress, or -1
-          wdone,    \* its state change has happened
+          wpend,    \* wpend[w]: index passed to writer w's Write call in progress, or -1
+          wdone,    \* wdone[w]: its state change has happened
+          wres,     \* wres[w]: what the specification returned to that call
           rpend,    \* a Read call is in progress
           rdone     \* its state change has happened
-tvars == <<rvars, l, wpend, wdone, rpend, rdone>>
+tvars == <<rvars, l, wpend, wdone, wres, rpend, rdone>>
+
+NoW == [w \in Writers |-> -1]
+NoD == [w \in Writers |-> FALSE]
+NoR == [w \in Writers |-> [a |-> "Init", i |-> -1, tbc |-> FALSE, err |-> FALSE]]
 
 Ev == Trace[l]
 IsEvent(e) == l <= Len(Trace) /\ Ev.ev = e /\ l' = l + 1
 
 TInit == /\ RInit(-1)
-         /\ l = 1 /\ wpend = -1 /\ wdone = FALSE /\ rpend = FALSE /\ rdone = FALSE
+         /\ l = 1 /\ wpend = NoW /\ wdone = NoD /\ wres = NoR /\ rpend = FALSE /\ rdone = FALSE
          /\ TLCSet(1, 1)
 
 TReset == /\ IsEvent("Reset")
@@ -27,38 +34,39 @@ TReset == /\ IsEvent("Reset")
           /\ arrived' = {} /\ next' = 0 /\ heap' = {} /\ pipe' = <<>>
           /\ closeRep' = FALSE /\ consumed' = <<>>
           /\ lastW' = [a |-> "Init", i |-> -1, tbc |-> FALSE, err |-> FALSE] /\ lastR' = <<>>
-          /\ wpend' = -1 /\ wdone' = FALSE /\ rpend' = FALSE /\ rdone' = FALSE
+          /\ wpend' = NoW /\ wdone' = NoD /\ wres' = NoR /\ rpend' = FALSE /\ rdone' = FALSE
 
-WCall == /\ IsEvent("W.call") /\ wpend = -1
-         /\ wpend' = Ev.i /\ wdone' = FALSE
-         /\ UNCHANGED <<rvars, rpend, rdone>>
+WCall == /\ IsEvent("W.call") /\ wpend[Ev.w] = -1
+         /\ wpend' = [wpend EXCEPT ![Ev.w] = Ev.i] /\ wdone' = [wdone EXCEPT ![Ev.w] = FALSE]
+         /\ UNCHANGED <<rvars, wres, rpend, rdone>>
 
-\* silent: the critical section of streamBuffer.Write
-WDo == /\ wpend # -1 /\ ~wdone
-       /\ Arrive(wpend) /\ wdone' = TRUE
-       /\ UNCHANGED <<l, wpend, rpend, rdone>>
+\* silent: the critical section of streamBuffer.Write of writer w
+WDo(w) == /\ wpend[w] # -1 /\ ~wdone[w]
+          /\ Arrive(wpend[w]) /\ wdone' = [wdone EXCEPT ![w] = TRUE]
+          /\ wres' = [wres EXCEPT ![w] = lastW']
+          /\ UNCHANGED <<l, wpend, rpend, rdone>>
 
-\* the recorded return values must be what the specification computed
-WRet == /\ IsEvent("W.ret") /\ wpend # -1 /\ wdone
-        /\ lastW.tbc = Ev.tbc /\ lastW.err = Ev.err
-        /\ wpend' = -1 /\ wdone' = FALSE
-        /\ UNCHANGED <<rvars, rpend, rdone>>
+\* the recorded return values must be what the specification computed for that call
+WRet == /\ IsEvent("W.ret") /\ wpend[Ev.w] # -1 /\ wdone[Ev.w]
+        /\ wres[Ev.w].tbc = Ev.tbc /\ wres[Ev.w].err = Ev.err
+        /\ wpend' = [wpend EXCEPT ![Ev.w] = -1] /\ wdone' = [wdone EXCEPT ![Ev.w] = FALSE]
+        /\ UNCHANGED <<rvars, wres, rpend, rdone>>
 
 RCall == /\ IsEvent("R.call") /\ ~rpend
          /\ rpend' = TRUE /\ rdone' = FALSE
-         /\ UNCHANGED <<rvars, wpend, wdone>>
+         /\ UNCHANGED <<rvars, wpend, wdone, wres>>
 
 RDo == /\ rpend /\ ~rdone
        /\ \E k \in 1..Len(pipe) : Read(k)
        /\ rdone' = TRUE
-       /\ UNCHANGED <<l, wpend, wdone, rpend>>
+       /\ UNCHANGED <<l, wpend, wdone, wres, rpend>>
 
 RRet == /\ IsEvent("R.ret") /\ rpend /\ rdone
         /\ lastR = Ev.got
         /\ rpend' = FALSE /\ rdone' = FALSE
-        /\ UNCHANGED <<rvars, wpend, wdone>>
+        /\ UNCHANGED <<rvars, wpend, wdone, wres>>
 
-TNext == TReset \/ WCall \/ WDo \/ WRet \/ RCall \/ RDo \/ RRet
+TNext == TReset \/ WCall \/ (\E w \in Writers : WDo(w)) \/ WRet \/ RCall \/ RDo \/ RRet
 TSpec == TInit /\ [][TNext]_tvars
 
 HW == TLCSet(1, IF l > TLCGet(1) THEN l ELSE TLCGet(1))
